@@ -35,11 +35,12 @@ from . import c02_ref as R
 from . import c02_twin as T
 from . import c02_keyphase as K
 from . import c02_keyderive as KD
+from . import c02_recv as RV
 
-GENERATORS = ["c02_pure", "c02_keys"]
+GENERATORS = ["c02_pure", "c02_keys", "c02_recv"]
 
 DEPENDS = ["PacketNumber", "Protect", "KeyPhase", "PnGen", "PacketNumberProofs", "ProtectProofs", "KeyPhaseProofs", "Base", "Tok", "C02",
-           "C02Keys", "KeyDerive", "KeyDeriveProofs", "KeyPhaseSec", "KeyPhaseSecProofs", "PacketRecv", "PacketRecvProofs"]
+           "C02Keys", "KeyDerive", "KeyDeriveProofs", "KeyPhaseSec", "KeyPhaseSecProofs", "PacketRecv", "PacketRecvProofs", "C02Recv", "RangeSet"]
 TRUSTED_BASE = [
     "extraction (ExtrOcamlBasic only; Z kept as the extracted inductive) + coq/extract/driver.ml for running the models",
     "harness/props/c02.py + c02_ref.py (independent RFC 9001/9369 implementation; decides what 'agree' means) and the "
@@ -58,8 +59,15 @@ TRUSTED_BASE = [
     "answers for the reference's queries, with the real functions on every run); coq/model/KeyPhaseSec.v = KeyPhase.v with key material",
     "tools/gen/c02_keys.py: reads labels, salts, lengths, code points and Retry keys from the current source (ast) and refuses when "
     "the shape of a derivation function differs from the pinned one; trusted to read correctly (cross-checked by the keyderive suite)",
-    "coq/model/PacketRecv.v (receive_datagram's decisions around decryption) is a model only, not executed against the code; the "
-    "code-level counterpart of its theorem is the state-digest oracle of the connection scenarios and the paired runs",
+    "modelled, not verified: receive_datagram's decisions around decryption as coq/model/PacketRecv.v (executed against real connections "
+    "by the packetrecv suite after every packet; _payload_received is an abstract function whose outcome -- ack-eliciting, error code, keys "
+    "installed, Handshake epoch discarded -- the harness supplies from what the puppet put into the packet and the receiver's handshake "
+    "flags; not modelled: migration / network paths, the server's very first datagram, qlog)",
+    "tools/gen/c02_recv.py: normal form (logging stripped) of the statements of receive_datagram after header parsing compared with the "
+    "pinned forms; trusted to read the source correctly (cross-checked by the packetrecv suite)",
+    "harness/props/c02_recv.py: reads private attributes of the connection (labelled peeks: _cryptos, _spaces, _peer_cid, _spin_bit, "
+    "_close_event ...), counts _payload_received / reschedule_data calls through wrappers stored in the instance dictionaries, builds "
+    "packets with aioquic's own CryptoContext.encrypt_packet keyed from the key log (the sealing itself is covered by the protect suite)",
     "harness/props/c02_keyderive.py: key / iv / hp of a real CryptoContext are identified by behaviour (probe sealed by ctx.aead, mask "
     "of ctx.hp) because the C objects have no accessors",
 ]
@@ -1204,6 +1212,34 @@ def suites(ctx, known):
     return pn, pt, kp
 
 
+def rv_suite(ctx, known):
+    return corr.Suite(ctx, "packetrecv", "exec_packetrecv", lambda c: RV.encode(_SELF, c), lambda c: RV.impl(_SELF, c),
+                      lambda c: known.filter(RV.oracle(_SELF, c), c), ops=lambda c: c["ops"], rebuild=lambda c, ops: dict(c, ops=ops),
+                      nontrivial=RV.nontrivial, opname=RV.opname)
+
+
+def run_packetrecv(ctx, known):
+    import sim  # noqa: F401  (the overlay of the tree under check is active now)
+    rv = rv_suite(ctx, known)
+    rv.run(corr.load_corpus("C02", "packetrecv"), "corpus")
+    cases = RV.gen_cases(_SELF, ctx.rng, max(40, int(ctx.n(800, 10000))), ctx.thorough)
+    bad_chunks = 0
+    for i in range(0, len(cases), 50):
+        chunk = cases[i:i + 50]
+        before = rv.stats["disagreements"] + rv.stats["oracle_failures"]
+        rv.run(chunk)
+        for c in chunk:
+            for h in RV.trace(_SELF, c)[3]:
+                rv.stats["outcome_histogram"][h] += 1
+            rv.stats["outcome_histogram"]["state-%s-%s" % (c["state"], c["receiver"])] += 1
+        if rv.stats["disagreements"] + rv.stats["oracle_failures"] > before:
+            bad_chunks += 1
+            if bad_chunks >= 3:          # failing inputs are on record (each chunk reports and shrinks up to 3); the rest would repeat them
+                rv.stats["outcome_histogram"]["stopped-after-3-failing-chunks"] += 1
+                break
+    return rv
+
+
 def kd_suite(ctx, known):
     return corr.Suite(ctx, "keyderive", "exec_keyderive", KD.encode, KD.impl, lambda c: known.filter(KD.oracle(c), c), nontrivial=KD.nontrivial)
 
@@ -1248,18 +1284,23 @@ def run(ctx):
     st = run_connection(ctx, known, extra)
     tw = run_twin(ctx, known, extra)
     kd = run_keyderive(ctx, known)
+    rv = run_packetrecv(ctx, known)
     extra["known_finding_cases"] = dict(known.hits)
     extra["implementation_variant"] = {"v2_key_update_label": (probe()["v2_ku_label"] or b"quicv2 ku").decode(),
                                        "truncated_pn_signed": probe()["signed_pn"]}
     extra["exhaustive_small_scope"] = "decode_packet_number: all 256 truncated values x %d expected values (8-bit encoding)" % len(es)
     cov = corr.merge_coverage(
-        [pn, pt, kp, kd],
+        [pn, pt, kp, kd, rv],
         "pn: boundary tables + random (expected, truncated, width) and all 256 truncated values for ranges of expected around 0, "
         "2^32 and 2^62; protect: tuples (kind in hp-apply/hp-remove/nonce/encrypt/decrypt, suite, version, key phases of sender and "
         "receiver, header form and length, pn length, payload size 0..max, pn, expected pn, optional single-byte corruption) with bytes "
         "derived from a per-case seed; keyderive: calls of hkdf_label / hkdf_expand_label / derive_key_iv_hp / setup_initial / "
         "n key updates / Retry key selection over 3 suites + an unknown one x versions 1, 2 and others x both roles x label, context, "
-        "secret and output lengths at the struct / HKDF limits, HMAC answers as data; connection: live flights with every byte (bit) of every packet altered; distinct = distinct token "
+        "secret and output lengths at the struct / HKDF limits, HMAC answers as data; packetrecv: real connections (after the handshake "
+        "with key-update prefixes, fresh client, server after its first flight, unconfirmed client; both roles, 3 suites x 2 versions) x "
+        "sequences of single-packet datagrams (authentic with old / duplicate / future / out-of-window packet numbers, 1-4 byte encodings, "
+        "reserved bits, spin bit, key generation -1..+2 with either phase bit; bit flips; forgeries; foreign keys; epochs without keys; genuine "
+        "handshake packets), state abstraction and qlog verdict compared after every packet; connection: live flights with every byte (bit) of every packet altered; distinct = distinct token "
         "encoding, non-trivial = in the property's domain / produces a packet",
         extra)
     cov["evaluations"] += st["mutants"] + st["genuine"] + extra.get("rfc_vectors", 0) + tw["runs"]
@@ -1272,7 +1313,12 @@ def replay(ctx, rep):
     pn, pt, kp = suites(ctx, known)
     case = rep["case"]
     res = {}
-    if isinstance(case, dict) and case.get("twin"):
+    if isinstance(case, dict) and case.get("recv"):
+        import sim  # noqa: F401
+        rv = rv_suite(ctx, known)
+        d, e, g = rv.disagree(case)
+        res["packetrecv"] = {"disagree": d, "impl": e, "model": g, "oracle": RV.oracle(_SELF, case), "histogram": RV.trace(_SELF, case)[3]}
+    elif isinstance(case, dict) and case.get("twin"):
         import sim  # noqa: F401
         res["twin"] = [{"kind": k, "problems": pr, "info": info} for k, pr, info in T.run_group(case, _aq_suite)]
     elif isinstance(case, dict) and "ops" in case:
